@@ -511,3 +511,53 @@ def width_actual(ck, F, rule="WIDTH-ACTUAL"):
                   "%s stores a column width read with get_column_width (the displayed width, 0.0 while the column is hidden): "
                   "a hidden column that is moved or rebuilt loses its width" % qn, f, l, sample={"fn": qn})
     ck.note("width_stores", n)
+
+
+def delete_style_flow(ck, F):
+    """ATTR-FLOW for Worksheet::delete_column_style: removing a column's style leaves its other attributes alone --
+    every rebuilt descriptor takes width / custom_width / hidden from the same field of the descriptor it replaces,
+    and the descriptor of the target column is kept whenever it still carries a width or a hidden flag."""
+    R = "ATTR-FLOW"
+    b = ck.need(F.one, "Worksheet::delete_column_style")
+    writes = _descriptor_writes(b, COL)
+    ck.ob(R, "delete_column_style|descriptor-writes", len(writes) >= 12, "expected pre / col / post descriptors, found %d field stores" % len(writes), b.file, b.line)
+    for bi, si, (kind, l), f, o in writes:
+        if f in ("min", "max", "style"):
+            continue
+        sr = sources(b, o)
+        name = b.local_name(l) or "_%d" % l
+        fl, ln = b.loc(bi, si)
+        ok = bool(sr) and all(x[0] == "via" or (x[0] == "field" and x[1] == COL and x[2] == f) for x in sr)
+        ck.ob(R, "delete_column_style|%s.%s|copied-from-same-field" % (name, f), ok,
+              "delete_column_style rebuilds descriptor `%s` with %s from %s instead of the same field of the descriptor it replaces: "
+              "deleting a column's style changes its %s" % (name, f, sorted(map(str, sr)), f), fl, ln, sample={"descriptor": name, "field": f})
+    # the target column's descriptor is re-inserted under a guard that knows about every remaining attribute
+    ins = [(bi, t) for bi, t in b.calls() if (b.callee_q(t) or "").endswith("Vec::insert")]
+    guarded = False
+    for bi, t in ins:
+        tr = b.trace(t["args"][2]) if len(t["args"]) == 3 else {"kind": "?"}
+        pl = op_place(t["args"][2]) if len(t["args"]) == 3 else None
+        if pl is None or b.local_name(pl["l"]) != "col":
+            # moved temp of `col`
+            rv = b.def_rvalue(pl["l"]) if pl is not None else None
+            q = op_place(rv["o"]) if rv is not None and rv["k"] == "use" else None
+            if q is None or b.local_name(q["l"]) != "col":
+                continue
+        gs = set()
+        doms = set(b.dominators_of(bi))
+        for d in range(len(b.blocks)):
+            tt = b.term(d)
+            if tt["k"] != "switch" or tt["ty"] != "bool" or b.is_cleanup(d):
+                continue
+            succ = b.succs(d)
+            reach = [bi == x or bi in b.reachable_from(x) for x in succ]
+            # a dominating test, or one arm of a short-circuit `||` / `&&` (one successor cannot reach the insert)
+            if d in doms or (any(reach) and not all(reach)):
+                gs |= sources(b, tt["o"])
+        flds = {x[2] for x in gs if x[0] == "field" and x[1] == COL}
+        guarded = True
+        fl, ln = b.loc(bi)
+        ck.ob(R, "delete_column_style|col kept while it has a width or is hidden", {"custom_width", "hidden"} <= flds,
+              "delete_column_style keeps the target column's descriptor only when %s is set: a hidden column without a custom width loses its "
+              "descriptor, i.e. it is unhidden by deleting its style" % sorted(flds), fl, ln)
+    ck.ob(R, "delete_column_style|col-insert", guarded, "re-insertion of the target column's descriptor not found (anchor lost?)", b.file, b.line)
